@@ -102,8 +102,7 @@ CLAIMED = {
         'category': 'proof',
         'text': ('Kernel-checked on the model: every guarded collection kind with a memory-zero-sized element/key type is refused with InvalidData+ZST message on serialize for every value '
                  'and on deserialize for EVERY input incl. the empty one (no length read first); zero-sized types themselves and arrays/options of them encode and round-trip. '
-                 'PARTIAL: the agreement with schema validation is covered by C10 theorems on containers and by correspondence (Vec<([u8;0],[u8;0])> witness), not yet by a theorem '
-                 'linking mem_zst to schema_of. ' + CORR + ' mem_zst is compared with the real size_of::<T>() for all 397 catalogue types on every run.'),
+                 'for sequence/set element types that are empty in memory and on the wire the run-time refusal and the ZSTSequence verdict of schema validation agree, and validation never gives that verdict for elements that occupy the wire (C14_agree, C14_agree_converse, under the decidable name-coherence hypothesis that finding F13 shows necessary). ' + CORR + ' mem_zst is compared with the real size_of::<T>() for all 397 catalogue types on every run.'),
         'design_ref': 'DESIGN.md section 5 C14',
         'technique': 'Coq proof (direct from the transcribed guards + round trip) + size_of cross-check + differential correspondence',
     },
